@@ -7,7 +7,7 @@
   B  date(year, month, day) from numbers: accepted exactly for real calendar dates (components out of range, also far beyond
      256, and fractional components give null).
   C  named zones: the UTC offset in force at a local time (every 30 minutes in the six hours around each 2020 / 2021 transition of
-     five zones, plus mid-season times; ambiguous and non-existent local times excluded) equals the offset CPython's zoneinfo gives.
+     five zones, plus mid-season times; ambiguous and non-existent local times excluded; on the hour also with fractional seconds) equals the offset CPython's zoneinfo gives.
 
 The expectations are written out here from ISO 8601 / XML Schema part 2 as DMN 1.3 section 10.3.2.3 uses them and from the Gregorian
 calendar; the real code is driven through FEEL expressions (replay driver command feelcases).
@@ -267,6 +267,12 @@ def cases():
                     txt = 'PT0S'
                 lit = p.strftime('%Y-%m-%dT%H:%M:%S')
                 out.append(('date and time("%s@%s") - date and time("%sZ")' % (lit, zn, lit), sign + txt))
+                # the same reading with fractional seconds: the fraction belongs to both readings, the offset is a whole number of seconds
+                if p.minute == 0 or p in points[:2]:
+                    for fr in ('.5', '.000000001', '.999999999'):
+                        out.append(('date and time("%s%s@%s") - date and time("%s%sZ")' % (lit, fr, zn, lit, fr), sign + txt))
+                    hh, mm = divmod(abs(secs) // 60, 60)
+                    out.append(('date and time("%s.25@%s") = date and time("%s.25%s%02d:%02d")' % (lit, zn, lit, '-' if secs < 0 else '+', hh, mm), 'true'))
         # zone identifiers spelled with digits, '+' or '-' (Etc/GMT+5, America/Port-au-Prince, EST5EDT, ...): accepted like any other
         # ... and identifiers of three components (America/Argentina/Buenos_Aires, America/Indiana/Knox, ...) or without an area (UTC, Japan, Poland)
         odd = sorted(zn for zn in zoneinfo.available_timezones() if (any(ch.isdigit() or ch in '+-' for ch in zn) or zn.count('/') != 1) and not zn.startswith(('posix', 'right')) and zn not in ('localtime', 'Factory'))
